@@ -62,6 +62,15 @@ def cases(draw, tier):
         'steps': draw(st.integers(20, 200 if tier == 'quick' else 1200)),
         'start_off': 0,
     }
+    if draw(st.sampled_from([0] * 11 + [1])):
+        # a lone DD/FD prefix in the last byte of memory, executed just as the frame interrupt becomes due: the
+        # interrupt must wait for the instruction after the prefix, which lies at 0x0000
+        k = draw(st.integers(0, 3))
+        case['base'] = 0xFFFF - k
+        case['code'] = [0x00] * k + [draw(st.sampled_from([0xDD, 0xFD]))]
+        case['tstates'] = frame - 4 * k - 4 + draw(st.integers(0, 8)) + frame * draw(st.sampled_from([0, 1]))
+        case['iff'] = 1
+        case['interrupts'] = True
     return case
 
 
